@@ -1,0 +1,92 @@
+// Copyright © 2022-2026 Obol Labs Inc. Licensed under the terms of a Business Source License 1.1
+
+//go:build verif
+
+// Verification contracts (comments only; read by /verif/govc, never compiled into charon).
+package scheduler
+
+//@ pure eth2v1.ValidatorState.IsActive core.PubKeyFromBytes core.PubKeyFrom48Bytes core.NewAttesterDefinition core.NewProposerDefinition core.NewSyncCommitteeDefinition
+//@ pure eth2wrap.CachedValidatorsProvider.CompleteValidators core.Slot.Epoch core.DutyDefinitionSet.Clone core.AllDutyTypes delayFunc fn
+
+//@ func (s *Scheduler) setDutyDefinition
+//@ props C15
+//@ atomic
+//@ assigns s.duties, s.dutiesByEpoch
+//@ ensures has(old(s.duties)[duty], pubkey) ==> !result && s.duties == old(s.duties) && s.dutiesByEpoch == old(s.dutiesByEpoch)
+//@ ensures !has(old(s.duties)[duty], pubkey) ==> result && has(s.duties, duty) && has(s.duties[duty], pubkey) && s.duties[duty][pubkey] == set
+//@ ensures all(pk, core.PubKey, pk != pubkey ==> s.duties[duty][pk] == old(s.duties)[duty][pk] && (has(s.duties[duty], pk) <==> has(old(s.duties)[duty], pk)))
+//@ ensures all(d2, core.Duty, d2 != duty ==> s.duties[d2] == old(s.duties)[d2] && (has(s.duties, d2) <==> has(old(s.duties), d2)))
+//@ ensures result ==> len(s.dutiesByEpoch[epoch]) == len(old(s.dutiesByEpoch)[epoch]) + 1 && s.dutiesByEpoch[epoch][len(old(s.dutiesByEpoch)[epoch])] == duty
+//@ canary result
+
+//@ func (s *Scheduler) getDutyDefinitionSet
+//@ props C15
+//@ assigns nothing
+//@ ensures r1 <==> has(s.duties, duty)
+//@ ensures r1 ==> r0 == s.duties[duty]
+
+//@ func (s *Scheduler) trimDuties
+//@ props C15
+//@ atomic
+//@ havoc s.trimEventTriggeredAttestations
+//@ ensures forallk(d, s.duties, has(old(s.duties), d) && s.duties[d] == old(s.duties)[d])
+//@ ensures forallk(d, old(s.duties), !exists(a, 0, len(old(s.dutiesByEpoch)[epoch]), old(s.dutiesByEpoch)[epoch][a] == d) ==> has(s.duties, d))
+//@ ensures forall(a, 0, len(old(s.dutiesByEpoch)[epoch]), !has(s.duties, old(s.dutiesByEpoch)[epoch][a]))
+//@ loop 1 invariant forallk(d, s.duties, has(old(s.duties), d) && s.duties[d] == old(s.duties)[d])
+//@ loop 1 invariant forallk(d, old(s.duties), !exists(a, 0, $i, duties[a] == d) ==> has(s.duties, d))
+//@ loop 1 invariant forall(a, 0, $i, !has(s.duties, duties[a]))
+//@ loop 1 invariant duties == old(s.dutiesByEpoch)[epoch] && s.dutiesByEpoch == old(s.dutiesByEpoch)
+
+//@ func resolveActiveValidators
+//@ props C15
+//@ ensures r1 == nil ==> forall(a, 0, len(r0), has(res(0, eth2Cl.CompleteValidators(ctx)), r0[a].VIdx) && (res(0, eth2Cl.CompleteValidators(ctx))[r0[a].VIdx].Status.IsActive() || res(0, eth2Cl.CompleteValidators(ctx))[r0[a].VIdx].Validator.ActivationEpoch == eth2p0.Epoch(epoch)))
+//@ ensures r1 == nil ==> forall(a, 0, len(r0), res(1, core.PubKeyFromBytes(res(0, eth2Cl.CompleteValidators(ctx))[r0[a].VIdx].Validator.PublicKey[:])) == nil && r0[a].PubKey == res(0, core.PubKeyFromBytes(res(0, eth2Cl.CompleteValidators(ctx))[r0[a].VIdx].Validator.PublicKey[:])))
+//@ canary r1 != nil
+//@ loop 1 invariant forall(a, 0, len(resp), has(res(0, eth2Cl.CompleteValidators(ctx)), resp[a].VIdx) && (res(0, eth2Cl.CompleteValidators(ctx))[resp[a].VIdx].Status.IsActive() || res(0, eth2Cl.CompleteValidators(ctx))[resp[a].VIdx].Validator.ActivationEpoch == eth2p0.Epoch(epoch)))
+//@ loop 1 invariant forall(a, 0, len(resp), res(1, core.PubKeyFromBytes(res(0, eth2Cl.CompleteValidators(ctx))[resp[a].VIdx].Validator.PublicKey[:])) == nil && resp[a].PubKey == res(0, core.PubKeyFromBytes(res(0, eth2Cl.CompleteValidators(ctx))[resp[a].VIdx].Validator.PublicKey[:])))
+
+//@ func fraction$1
+//@ props C15
+//@ ensures result == (total * time.Duration(x)) / time.Duration(y)
+
+//@ func delaySlotOffset
+//@ props C15
+//@ callreq delayFunc: has(slotOffsets, duty.Type) && a1 == duty && a2 == slot.Time.Add(fn(slot.SlotDuration))
+//@ ensures !has(slotOffsets, duty.Type) ==> result && ncalls(delayFunc) == 0
+//@ ensures has(slotOffsets, duty.Type) && result ==> ncalls(delayFunc) == 1
+
+//@ func (v validators) PubKeyFromIndex
+//@ props C15
+//@ pure
+//@ ensures r1 ==> exists(a, 0, len(v), v[a].VIdx == vIdx && v[a].PubKey == r0)
+//@ ensures !r1 ==> forall(a, 0, len(v), v[a].VIdx != vIdx)
+//@ loop 1 invariant forall(a, 0, $i, v[a].VIdx != vIdx)
+
+//@ func (s *Scheduler) resolveAttDuties
+//@ props C15
+//@ callreq s.setDutyDefinition: attDuty.Slot >= eth2p0.Slot(slot.Slot) && res(1, vals.PubKeyFromIndex(attDuty.ValidatorIndex)) && a3 == res(0, vals.PubKeyFromIndex(attDuty.ValidatorIndex))
+//@ callreq s.setDutyDefinition: core.PubKeyFrom48Bytes(attDuty.PubKey) == a3 && a2 == slot.Epoch() && a4 == core.NewAttesterDefinition(attDuty)
+//@ callreq s.setDutyDefinition: a1 == core.NewAttesterDuty(uint64(attDuty.Slot)) || a1 == core.NewAggregatorDuty(uint64(attDuty.Slot))
+//@ loop 1 invariant true
+//@ loop 2 invariant true
+//@ loop 3 invariant true
+
+//@ func (s *Scheduler) resolveProDuties
+//@ props C15
+//@ callreq s.setDutyDefinition: proDuty.Slot >= eth2p0.Slot(slot.Slot) && res(1, vals.PubKeyFromIndex(proDuty.ValidatorIndex)) && a3 == res(0, vals.PubKeyFromIndex(proDuty.ValidatorIndex))
+//@ callreq s.setDutyDefinition: core.PubKeyFrom48Bytes(proDuty.PubKey) == a3 && a2 == slot.Epoch() && a4 == core.NewProposerDefinition(proDuty) && a1 == core.NewProposerDuty(uint64(proDuty.Slot))
+//@ loop 1 invariant true
+//@ loop 2 invariant true
+
+//@ func (s *Scheduler) scheduleSlot
+//@ props C15
+//@ callreq go func: a1 == duty && duty.Slot == slot.Slot && a2 == defSet && ok
+//@ ensures ncalls("go func") <= len(core.AllDutyTypes())
+//@ loop 1 invariant ncalls("go func") <= $i
+
+//@ func (s *Scheduler) scheduleSlot$1
+//@ props C15 C18
+//@ callreq sub: a2 == duty && res(1, defSet.Clone()) == nil && a3 == res(0, defSet.Clone()) && a1 == dutyCtx
+//@ callreq sub: ncalls(delaySlotOffset) + ncalls(s.waitForEarlyFetchOrTimeout) == 1
+//@ callreq delaySlotOffset: a1 == dutyCtx && a2 == slot && a3 == duty && a4 == s.delayFunc
+//@ loop 1 invariant ncalls(delaySlotOffset) + ncalls(s.waitForEarlyFetchOrTimeout) == 1
